@@ -105,7 +105,10 @@ Fixpoint eval_expr (fuel : nat) (e : expr) (env : nat) (st : state) {struct fuel
           match first with
           | VProcU _ _ _ _ | VProcB _ =>
               doe (vs, st3) <- (rargs, st2) ;; apply_proc f first vs env st3
-          | _ => (lerr TypeMisMatch (eloc fe), st2)
+          | _ => match rargs with
+                 | OutOfFuel => (OutOfFuel, st2)   (* the operands are evaluated to the end first *)
+                 | _ => (lerr TypeMisMatch (eloc fe), st2)
+                 end
           end
       | ESet x ve _ =>
           doe (v, st1) <- eval_expr f ve env st ;;
